@@ -3,6 +3,7 @@ package gobinlog
 import (
 	"context"
 	"fmt"
+	"runtime"
 	"sync/atomic"
 
 	"github.com/Breeze0806/gobinlog/replication"
@@ -111,13 +112,32 @@ func (s *Streamer) Error() error {
 	}
 }
 
-func (s *Streamer) parseEvents(ctx context.Context, events <-chan replication.BinlogEvent) (Position, *Error) {
+func (s *Streamer) parseEvents(ctx context.Context, events <-chan replication.BinlogEvent) (rpos Position, rerr *Error) {
 	var tranEvents []*StreamEvent
 	var format replication.BinlogFormat
 	var err error
 	pos := s.binlogPosition()
 	tablesMaps := make(map[uint64]*tableCache)
 	autocommit := true
+
+	// An event with a well-formed header whose body cannot be decoded (too
+	// short for its type, lengths pointing outside the buffer) must end the
+	// attempt with an error like any other decode failure instead of panicking:
+	// the position kept is then still the last commit boundary.
+	inUserCode := false
+	defer func() {
+		if inUserCode {
+			return // a panic of the handler or of the table mapper is the caller's
+		}
+		if r := recover(); r != nil {
+			re, ok := r.(runtime.Error)
+			if !ok {
+				panic(r)
+			}
+			rpos, rerr = pos, newError(fmt.Errorf("undecodable event: %v", re)).
+				msgf("parseEvents can't parse binlog event in pos: %+v", pos)
+		}
+	}()
 
 	begin := func() {
 		if tranEvents != nil {
@@ -133,7 +153,10 @@ func (s *Streamer) parseEvents(ctx context.Context, events <-chan replication.Bi
 		pos.Offset = ev.NextPosition()
 		next := pos
 		tran := newTransaction(now, next, int64(ev.Timestamp()), tranEvents)
-		if err = s.sendTransaction(tran); err != nil {
+		inUserCode = true
+		err = s.sendTransaction(tran)
+		inUserCode = false
+		if err != nil {
 			// the transaction was not accepted: keep the resume position before it
 			pos = now
 			return fmt.Errorf("sendTransaction error: %v", err)
@@ -285,7 +308,10 @@ func (s *Streamer) parseEvents(ctx context.Context, events <-chan replication.Bi
 			name := NewMysqlTableName(tm.Database, tm.Name)
 
 			var info MysqlTable
-			if info, err = s.tableMapper.MysqlTable(name); err != nil {
+			inUserCode = true
+			info, err = s.tableMapper.MysqlTable(name)
+			inUserCode = false
+			if err != nil {
 				return pos, newError(err).msgf("parseEvents MysqlTable fail. table: %v", err)
 			}
 
